@@ -251,6 +251,19 @@ def ops(rng):
     add("segment.props2", lambda s: (s.midpoint, s.length), lambda: (seg(2),))
     add("segment.props3", lambda s: (s.midpoint, s.length), lambda: (seg(3),))
     add("triangle.contains", lambda t, p: t.contains(p), lambda: (tri(), pt2(1.0)))
+
+    def tri_edge():
+        # a 2-D triangle (either orientation) and a point on one of its edges, at a vertex or just outside
+        while True:
+            v = [(rng.randint(-4, 4), rng.randint(-4, 4)) for _ in range(3)]
+            if (v[1][0] - v[0][0]) * (v[2][1] - v[0][1]) - (v[1][1] - v[0][1]) * (v[2][0] - v[0][0]) != 0:
+                break
+        i = rng.randrange(3)
+        a, b = np.array(v[i], dtype=float), np.array(v[(i + 1) % 3], dtype=float)
+        t = rng.choice([0.0, 0.5, 0.25, 1.0, 1.5, -0.5])
+        p = a + t * (b - a)
+        return g.Triangle(*[g.Point(float(x), float(y)) for x, y in v]), g.Point(float(p[0]), float(p[1]))
+    add("triangle.contains-edge", lambda t, p: t.contains(p), tri_edge, nomix=True)
     add("polygon.area", lambda t: t.area, lambda: (tri(),))
     def poly3():
         # a planar quadrilateral in the plane z = a x + b y + c (not through the origin)
